@@ -7,11 +7,13 @@ Driver for C18. One history per input line (written by harness/overlay/pkg/routi
   h <spray|binary> <L> <npeers> <event> <event> ...
 
   event = <ev>/<fails>/<sched>/<sends>/<rem>/<sent>/<store>
-    ev     S | R:<k|->:<prev|-> | U:<i> | D:<i> | T | X | O
+    ev     S | R:<k|->:<prev|-> | U:<i> | D:<i> | T | X | O | L:<k|->:<prev|->
            (submit, receive with BinarySprayBlock k from previous node prev, peer i up / down, retry
            tick, restart, two retry ticks started at the same time — the second while the first sits
-           between reading and writing the metadata, if the lock lets it); peer 0 is the bundle's
-           destination node
+           between reading and writing the metadata, if the lock lets it; L = the bundle is received
+           AGAIN while it is in the store — the stored bundle with a PreviousNodeBlock of peer prev and,
+           if k is given, a BinarySprayBlock announcing k copies — through the calls the handler makes);
+           peer 0 is the bundle's destination node
     fails  '-' or dot-separated peers whose Send fails during the event
     sched  '-' or a word over {a,b}: forced order of the read / write-back steps of two failure reports
   observations of the REAL node after the event:
@@ -89,6 +91,10 @@ def parseEvent (tok : String) : Option EvLine :=
         match parseOptNat k, parseOptNat p with
         | some k, some p => some { base with k := k, prev := p }
         | _, _ => none
+      | 'L', [_, k, p] =>
+        match parseOptNat k, parseOptNat p with
+        | some k, some p => some { base with k := k, prev := p }
+        | _, _ => none
       | 'U', [_, i] => i.toNat?.map (fun i => { base with peer := i })
       | 'D', [_, i] => i.toNat?.map (fun i => { base with peer := i })
       | _, _ => none
@@ -127,6 +133,7 @@ structure SpecSt where
   originated : Bool := false     -- entered by submit (budget L applies)
   entered : Bool := false
   held : Option Nat := none      -- remainingCopies as last observed (or the entry's initial count)
+  sent : Option (List Peer) := none  -- the metadata's sent list as last observed
   restarted : Bool := false
   allSends : List Send := []
 
@@ -151,6 +158,21 @@ def specEvent (algo : Algo) (l : Nat) (st : SpecSt) (e : EvLine) : SpecSt × Opt
   let all := st.allSends ++ sends
   let cls := stepClass e.kind sends
   let fail? : Option String :=
+    if e.kind == 'L' then
+      -- a duplicate reception of a stored bundle must not touch the budget: nothing is sent, the
+      -- count and the record of who was served stay as they were
+      if !sends.isEmpty then some s!"duplicate-reception-forwards sends={showSends sends}"
+      else match st.held, e.obs.rem with
+        | some h, some r =>
+          if r != h then
+            some s!"duplicate-reception-changes-count-{if st.originated then "own-bundle" else "relayed-bundle"} before={h} after={r}"
+          else if st.sent.map sortNats != e.obs.sent.map sortNats then
+            some s!"duplicate-reception-changes-sent-list-{if st.originated then "own-bundle" else "relayed-bundle"}"
+          else none
+        | some h, none => some s!"duplicate-reception-drops-metadata before={h}"
+        | none, some r => some s!"duplicate-reception-creates-metadata after={r}"
+        | none, none => none
+    else
     match st.held, e.obs.rem with
     | some h, some r =>
       if !decide (SingleCopyWaits dest h sends) then
@@ -187,7 +209,8 @@ def specEvent (algo : Algo) (l : Nat) (st : SpecSt) (e : EvLine) : SpecSt × Opt
       if st.originated && algo == .spray && !decide (Budget l dest all) then
         some s!"spray-budget-exceeded L={l} relayed={(relayed dest all).length}"
       else none
-  ({ st with allSends := all, held := if e.kind == 'X' then none else e.obs.rem }, fail?)
+  ({ st with allSends := all, held := if e.kind == 'X' then none else e.obs.rem,
+             sent := if e.kind == 'X' then none else e.obs.sent }, fail?)
 
 /-- The model's event for a harness event; the sender order puts the peers the node actually sent to
 first (the manager's order is a `sync.Map` range: any order is possible, the model is asked whether
@@ -203,6 +226,7 @@ def mkEvent (n : Nat) (e : EvLine) : Option (List Event) :=
   | 'T' => some [.tick env]
   | 'O' => some [.tick env, .tick env]   -- the repaired code serialises the two runs
   | 'X' => some [.restart]
+  | 'L' => some [.loopback e.k e.prev]
   | _ => none
 
 /-- All ways to split a list into (chosen, rest). -/
